@@ -441,7 +441,7 @@ MUTANTS += [
     {"id": "n48", "prop": "C12", "expect": ["C12-R5"], "files": [(PN, "            \"__class_getitem__\",\n", "            \"__class_getitem__\",\n            \"__new__\",\n")]},
     {"id": "n51", "prop": "C13", "expect": ["C13-R4"], "files": [(PN, "            raise NotImplementedError(f\"Unknown assignment target: {type(target)}\")", "            return []")]},
     {"id": "n52", "prop": "C13", "expect": ["C13-R7"], "files": [(PN, "        return self.nsp.get_assign(target.id, value)", "        return NamedExpr(target=Name(id=target.id, ctx=Store()), value=value)")]},
-    {"id": "n53", "prop": "C14", "expect": ["C14-R1"], "files": [(PN, "            if _alias.asname is not None:\n                asname = _alias.asname\n", "            if _alias.asname is not None:\n                asname = _alias.asname\n                import_func = Name(id=\"__import__\", ctx=Load())\n")]},
+    # n53 (aliased imports through __import__) became behaviour-preserving with fix 3353021: see e27
     {"id": "n54", "prop": "C14", "expect": ["C14-R5"], "files": [(PN, "        super().__init__(node, nsp, nsp_global)\n        self.nsp_global.use_importlib = True", "        super().__init__(node, nsp, nsp_global)")]},
     {"id": "n55", "prop": "C15", "expect": ["C15-R1"], "files": [(EU, "        _slice = yield PREC_EXPR_SLOT, node.slice", "        _slice = yield PREC_CALL_SLOT_ARG, node.slice")]},
     {"id": "n56", "prop": "C15", "expect": ["C15-R3", "C15-R2"], "files": [(EU, "    if \"\\\\\" in value:", "    if sys.version_info < (3, 12) and \"\\\\\" in value:"), (EU, "import itertools\nimport typing", "import itertools\nimport sys\nimport typing")]},
@@ -515,4 +515,9 @@ EQUIVALENTS += [
 MUTANTS += [
     {"id": "r14", "prop": "C11", "expect": ["C11-R6"], "files": [(EU, "    ind = len(arg_def_list)\n    for default in reversed(node.args.defaults):\n        ind -= 1\n", "    ind = len(arg_def_list)\n    for default in node.args.defaults:\n        ind -= 1\n")]},
     {"id": "r15", "prop": "C11", "expect": ["C11-R6"], "files": [(EU, "    ind = len(arg_def_list)\n    for default in reversed(node.args.defaults):\n        ind -= 1\n", "    ind = len(node.args.args)\n    for default in reversed(node.args.defaults):\n        ind -= 1\n")]},
+]
+
+EQUIVALENTS += [
+    {"id": "e27", "props": ["C14", "C01", "C09"], "why": "`import a as c` through __import__('a') binds the same module; dotted aliases take the attribute path anyway (former mutant n53)",
+     "files": [(PN, "            if _alias.asname is not None:\n                asname = _alias.asname\n", "            if _alias.asname is not None:\n                asname = _alias.asname\n                import_func = Name(id=\"__import__\", ctx=Load())\n")]},
 ]
